@@ -1,4 +1,4 @@
-\* trace validation of recorded runs of the real Manager (VERIF_TRACE = NDJSON file)
+\* trace validation of recorded runs of the real Manager (VERIF_MTRACE = NDJSON file)
 SPECIFICATION TraceSpec
 CONSTANTS
   Peers = {"p1", "p2"}
